@@ -128,12 +128,14 @@ theorem total_copy_sign (x y : U128) : ∃ r, run3 "copy_sign" [.d x, .d y] = so
 theorem total_is_canonical (x : U128) : ∃ r, run3 "is_canonical" [.d x] = some (.ok r) := by
   rw [show run3 "is_canonical" [.d x] = some ((d128_is_canonical x).map fun r => [AVal.b r]) from rfl, is_canonical_spec']; exact ⟨_, rfl⟩
 
-/-- the 35 operations with a totality theorem above are exactly the regenerated dispatch of `run3` -/
+/-- the 35 operations with a totality theorem above, and the four text entry points of `run3s`, are exactly the regenerated dispatch -/
 theorem glue_ops_listed : Dec.Gen.Api3.covered.map (·.1) =
     ["op_add", "op_add_ref", "op_add_assign", "op_add_assign_ref", "op_sub", "op_sub_ref", "op_sub_assign", "op_sub_assign_ref",
      "op_mul", "op_mul_ref", "op_mul_assign", "op_mul_assign_ref", "op_div", "op_div_ref", "op_div_assign", "op_div_assign_ref",
      "op_rem", "op_rem_ref", "op_rem_assign", "op_rem_assign_ref", "op_neg", "op_neg_ref",
      "from_i32", "from_u32", "from_i64", "from_u64", "from_u128", "default", "copy", "copy_sign", "is_canonical",
-     "sum", "sum_ref", "product", "product_ref"] := by decide +kernel
+     "sum", "sum_ref", "product", "product_ref",
+     -- the four text entry points, over the string routine as a parameter: `C14GenTextGlue`
+     "convert_from_decimal_character", "from_str", "from_string_ref", "nan"] := by decide +kernel
 
 end Dec.C15GenGlue
